@@ -88,11 +88,13 @@ func branches(r Rule, neg bool) int {
 	return 1
 }
 
+var maxBranches = 40
+
 // rule draws a formula whose expansion stays small enough to compile in seconds
 func (rg *ruleGen) rule(depth int) Rule {
 	for {
 		r := rg.rule0(depth)
-		if branches(r, false) <= 40 {
+		if branches(r, false) <= maxBranches {
 			return r
 		}
 	}
